@@ -293,9 +293,9 @@ func (p *Project) Write(root, repo string) error {
 		if i == 0 {
 			rd, nh, gw = fmt.Sprintf("%02d", p.RootDepth), fmt.Sprintf("%02d", len(p.Soil)), fmt.Sprintf("%02d", p.GW)
 		}
-		fmt.Fprintf(&b, "%s,%.2f,%s,%02d,%d,%s,%02d,10,00,%s,%s,%s,%s,%s,%s,%s,%s,%02d,%02d,%s\n",
+		fmt.Fprintf(&b, "%s,%.2f,%s,%02d,%d,%s,%02d,10,00,%s,%s,%s,%s,%s,%s,%s,%s,%02d,%.2f,%s\n",
 			p.SoilID, h.Corg, h.Texture, h.Lower, h.LD, bulk, h.Stone, rd, nh, opt(h.FC), opt(h.WP), opt(h.PV),
-			opt(h.Sand), opt(h.Silt), opt(h.Clay), p.DrainDep, p.DrainPct, gw)
+			opt(h.Sand), opt(h.Silt), opt(h.Clay), p.DrainDep, float64(p.DrainPct)/100, gw) // "Drainage%" is read raw as the fraction DRAIFAK (soil.go:227)
 	}
 	if err := w("soil_"+p.Name+".csv", b.String()); err != nil {
 		return err
